@@ -10,7 +10,7 @@ import z3
 
 from pyvc import specz3
 from pyvc.sym import (I, B, A, A2, iv, add, sub, lit, fresh, fresh_seq, Seq, Tup, Mat, Row, Obj, FloatV, NONE, NoneV, const_str,
-                      const_list, seq_eq, const_mat, MaskV)
+                      const_list, seq_eq, const_mat, MaskV, ZipSeq, MaybeFloat)
 
 Z3_TIMEOUT_MS = int(os.environ.get("PYVC_Z3_TIMEOUT_MS", "20000"))
 CVC5_TIMEOUT_S = int(os.environ.get("PYVC_CVC5_TIMEOUT_S", "40"))
@@ -78,6 +78,8 @@ def tobool(v):
 
 
 def toint(v):
+    if isinstance(v, MaybeFloat):
+        return v.value
     if isinstance(v, bool):
         return iv(int(v))
     if isinstance(v, int):
@@ -185,7 +187,7 @@ class Exec:
             cond = z3.BoolVal(cond)
         if z3.is_false(z3.simplify(cond)):      # (the simplified form is only used for this test: z3's simplifier may introduce
             return                              #  pseudo-boolean operators that other solvers do not read)
-        if (exc in self.c.get("raises", {}) or exc in self.c.get("raises_only_when", {})) and not self.quiet:
+        if (exc in self.c.get("raises", {}) or exc in self.c.get("raises_only_when", {})) and not self.quiet and not getattr(self, "in_ghost", 0):
             t = st.clone()
             t.assume(cond)
             self.pending.append(Outcome("raise", t, exc=exc, line=line))
@@ -322,7 +324,7 @@ class Exec:
             raise Unsupported("sequence ordering")
         if isinstance(l, FloatV) or isinstance(r, FloatV):
             return self.float_compare(op, l, r)
-        if isinstance(l, Seq) and l.kind == "nd" and not isinstance(r, Seq):
+        if (isinstance(l, ZipSeq) or (isinstance(l, Seq) and l.kind == "nd")) and not isinstance(r, (Seq, ZipSeq)):
             c = toint(r)
             f = {ast.Eq: lambda v: v == c, ast.NotEq: lambda v: v != c, ast.Lt: lambda v: v < c, ast.LtE: lambda v: v <= c,
                  ast.Gt: lambda v: v > c, ast.GtE: lambda v: v >= c}[type(op)]
@@ -400,6 +402,12 @@ class Exec:
         return self.binop(e.op, l, r, st, e.lineno)
 
     def binop(self, op, l, r, st, line):
+        if isinstance(l, MaybeFloat) or isinstance(r, MaybeFloat):
+            whens = [x.when for x in (l, r) if isinstance(x, MaybeFloat)]
+            return MaybeFloat(self.binop(op, toint(l), toint(r), st, line), z3.Or(*whens))
+        if isinstance(l, Seq) and isinstance(r, Seq) and l.kind == "nd" and r.kind == "nd" and isinstance(op, ast.Sub):
+            self.may_raise(st, "ValueError", l.n != r.n, f"operands-broadcast:{self.ordinal('bcast')}", line)
+            return ZipSeq(l, r)
         if isinstance(l, Seq) or isinstance(r, Seq):
             return self.seq_binop(op, l, r, st, line)
         if isinstance(l, FloatV) or isinstance(r, FloatV):
@@ -562,6 +570,9 @@ class Exec:
             n = z3.simplify(z3.If(hi - lo > 0, hi - lo, 0))
             return base.view(lo, n)
         idxv = self.ev(sl, st)
+        if isinstance(idxv, MaybeFloat):
+            self.may_raise(st, "TypeError", idxv.when, f"index-is-an-integer:{self.ordinal('idxt')}", line)
+            idxv = idxv.value
         if isinstance(idxv, Seq) and base.kind == "nd":            # fancy indexing a[list of ints]: a copy
             k = lit(idxv.n)
             if k is None or k > 8:
@@ -624,6 +635,14 @@ class Exec:
                     and len(e.elt.args) == 1 and isinstance(e.elt.args[0], ast.Name) and e.elt.args[0].id == t and src.elem == "char":
                 self.may_raise(st, "ValueError", z3.Not(specz3.seq_digits(src)), f"int-of-each-char:{self.ordinal('intc')}", e.lineno)
                 return src.retag("list", "int", -48)
+            # [nucleotides.index(x) for x in <str>]  ->  the codes of the string
+            if isinstance(e.elt, ast.Call) and isinstance(e.elt.func, ast.Attribute) and e.elt.func.attr == "index" and len(e.elt.args) == 1 \
+                    and isinstance(e.elt.args[0], ast.Name) and e.elt.args[0].id == t and src.elem == "char":
+                table = self.ev(e.elt.func.value, st)
+                txt = getattr(table, "const", None)
+                if txt is not None:
+                    from pyvc import calls
+                    return calls.map_index(self, st, txt, src, e.lineno)
             # [const_str[x] for x in <int seq>]  e.g. [nucleotides[used_index] for used_index in used_indices]
             if isinstance(e.elt, ast.Subscript) and isinstance(e.elt.slice, ast.Name) and e.elt.slice.id == t:
                 table = self.ev(e.elt.value, st)
@@ -713,7 +732,14 @@ class Exec:
                                      orelse=[ast.Assign(targets=s.targets, value=s.value.orelse, lineno=s.lineno)], lineno=s.lineno), st)
         v = self.ev(s.value, st)
         self.assign(s.targets[0], v, st, s)
-        return [Outcome("normal", st)]
+        names = [x.id for x in ast.walk(s.targets[0]) if isinstance(x, ast.Name)]
+        outs = [st]
+        pend = self.drain()                   # exceptional exits of the assignment itself (not of the ghost code below)
+        self.flush_defer(st)
+        for nme in names:                     # ghost anchor "after_assign:<name>"
+            if f"after_assign:{nme}" in self.c.get("ghost", {}):
+                outs = [g for x in outs for g in self.ghost(f"after_assign:{nme}", x)]
+        return [Outcome("normal", x) for x in outs] + pend
 
     def assign(self, tgt, v, st, s):
         if isinstance(tgt, ast.Name):
@@ -908,7 +934,11 @@ class Exec:
         if not code:
             return [st]
         tree = self.parse_ghost(anchor, code)
-        outs = self.exec_block(tree, st)
+        self.in_ghost = getattr(self, "in_ghost", 0) + 1
+        try:
+            outs = self.exec_block(tree, st)
+        finally:
+            self.in_ghost -= 1
         res = []
         for o in outs:
             if o.kind != "normal":
@@ -1132,7 +1162,11 @@ class Exec:
     def exec_ghost_ast(self, tree, st, anchor):
         if not tree:
             return [st]
-        outs = self.exec_block(tree, st)
+        self.in_ghost = getattr(self, "in_ghost", 0) + 1
+        try:
+            outs = self.exec_block(tree, st)
+        finally:
+            self.in_ghost -= 1
         res = []
         for o in outs:
             if o.kind != "normal":
